@@ -23,6 +23,14 @@ UNSUPPORTED = {   # serde entries ts-rs does not support: (tokens, class)
     "default=path": ([I("default"), PU("="), S("path")], "default_path"),
     "default": ([I("default")], "default_bare"),
     "crate": ([I("crate"), PU("="), S("serde")], "kv"),          # a keyword as key
+    # long values in other scripts (whatever is done with the text of a skipped attribute — printing it in a warning, shortening it —
+    # must cope with every byte offset falling inside a character): 2-, 3- and 4-byte characters at every alignment
+    "expecting(long2a)": ([I("expecting"), PU("="), S("структура с полями имя и возраст" * 4)], "kv"),
+    "expecting(long2b)": ([I("expecting"), PU("="), S("x" + "ж" * 120)], "kv"),
+    "alias(long3a)": ([I("alias"), PU("="), S("日本語の別名" * 12)], "kv"),
+    "alias(long3b)": ([I("alias"), PU("="), S("a" + "語" * 80)], "kv"),
+    "alias(long3c)": ([I("alias"), PU("="), S("ab" + "語" * 80)], "kv"),
+    "getter(long4)": ([I("getter"), PU("="), S("𝔘𝔫𝔦𝔠𝔬𝔡𝔢" * 10 + "z" + "𝔘" * 30 + "zz" + "𝔘" * 30 + "zzz" + "𝔘" * 30)], "kv"),
 }
 # keys only `#[ts(..)]` knows, per position: their presence must not change how the serde spelling of the other keys is read
 TS_ONLY = {"struct": [[I("type"), PU("="), S("string")], [I("export")]], "enum": [[I("as"), PU("="), S("Other")], [I("export_to"), PU("="), S("x/")]],
@@ -48,7 +56,7 @@ def join(entries):
 def tok_src(t):
     if "i" in t: return t["i"]
     if "p" in t: return t["p"]
-    if "s" in t: return json.dumps(t["s"])
+    if "s" in t: return json.dumps(t["s"], ensure_ascii=False)       # a Rust string literal: non-ASCII characters as themselves
     if "o" in t: return t["o"]
     return "(" + " ".join(tok_src(x) for x in t["g"]) + ")"
 
